@@ -505,3 +505,14 @@ EQUIVALENTS += [
     {"id": "e22", "props": ["C04", "C15", "C02"], "why": "the same threshold spelled as >= 128",
      "files": [(EU, "        elif ord(i) > 127 and", "        elif ord(i) >= 128 and")]},
 ]
+
+EQUIVALENTS += [
+    {"id": "e25", "props": ["C11", "C03", "C02"], "why": "positional defaults attached by a forward walk from len(names) - len(defaults)",
+     "files": [(EU, "    ind = len(arg_def_list)\n    for default in reversed(node.args.defaults):\n        ind -= 1\n        if default is not None:\n            arg_def_list[ind] += f\"={yield PREC_EXPR_SLOT,default}\"\n", "    first = len(arg_def_list) - len(node.args.defaults)\n    for ind, default in enumerate(node.args.defaults):\n        arg_def_list[first + ind] += f\"={yield PREC_EXPR_SLOT,default}\"\n")]},
+    {"id": "e26", "props": ["C11", "C03", "C02"], "why": "positional defaults attached through negative indices, last default first",
+     "files": [(EU, "    ind = len(arg_def_list)\n    for default in reversed(node.args.defaults):\n        ind -= 1\n        if default is not None:\n            arg_def_list[ind] += f\"={yield PREC_EXPR_SLOT,default}\"\n", "    for ind, default in enumerate(reversed(node.args.defaults), 1):\n        arg_def_list[-ind] += f\"={yield PREC_EXPR_SLOT,default}\"\n")]},
+]
+MUTANTS += [
+    {"id": "r14", "prop": "C11", "expect": ["C11-R6"], "files": [(EU, "    ind = len(arg_def_list)\n    for default in reversed(node.args.defaults):\n        ind -= 1\n", "    ind = len(arg_def_list)\n    for default in node.args.defaults:\n        ind -= 1\n")]},
+    {"id": "r15", "prop": "C11", "expect": ["C11-R6"], "files": [(EU, "    ind = len(arg_def_list)\n    for default in reversed(node.args.defaults):\n        ind -= 1\n", "    ind = len(node.args.args)\n    for default in reversed(node.args.defaults):\n        ind -= 1\n")]},
+]
